@@ -71,6 +71,13 @@ def cases(tier, seed):
                 idx += 1
                 yield {'start': list(start), 'ops': list(seq), 'rot': (idx + seed) % 29,
                        'observe': 'end' if length > 1 and idx % 3 == 0 else 'every'}
+    # metadata changed through two handle objects on the same array in turn (each must work on what is in the file now)
+    from .. import hist_stale
+    for c in hist_stale.array_cases(random.Random(f'C13:{seed}:stale'), 200 if tier == 'quick' else 2500, seed,
+                                    hops=['h:md', 'h:md_pop', 'h:md', 'h:read']):
+        c['start'] = ['stale-handle', False]
+        c['steps'] = [s_ if s_ not in ('x:trunc', 'x:app', 'x:set') or c['vseed'][-1] in '13579' else 'x:md' for s_ in c['steps']]
+        yield c
     rng = random.Random(f'C13:{seed}')
     for k in range(300 if tier == 'quick' else 3000):
         yield {'start': list(rng.choice(STARTS)), 'rot': rng.randrange(29),
@@ -139,6 +146,12 @@ def observe(res, md, model, tag):
 
 def run_case(case, env):
     res = Result()
+    if case.get('kind') == 'stale':
+        from .. import hist_stale
+        hist_stale.run_array(env, res, case)
+        res.sig = hist_stale.sig_of(case)
+        res.dim('start', 'two handles in turn')
+        return res
     D = env.darr
     kind, with_md = case['start']
     d = env.scratch.new('m')
